@@ -87,6 +87,10 @@ def value_sets(tier):
         "smax": [v for v in S2 if len(v) <= 2],
         "sb": S, "aff": S, "lit": S, "two": S2,
         "i": INTS, "si": INTS + [-x for x in INTS if x], "fd": [0, 7, 12, 123, 999],
+        # signed + fixed_digits: the sign counts as one position (to_url zfill / to_python len agree on that)
+        "sfd": [0, 7, -5, 12, -12, 123, -123, 999, -999, 9999],
+        # defaults twins declared AFTER the general rule (declaration order must not matter)
+        "list": [(1, 10), (2, 10), (1, 5), (3, 7)], "k": ["en", "é", "a b"], "n": [1, 2, 10],
         "imm": [3, 5, 9],
         "f": FLOATS, "sf": FLOATS + [-x for x in FLOATS] ,
         "any": ["a", "b"], "u": [U1, U2],
@@ -110,6 +114,7 @@ def rules_default():
         Rule("/i/<int:v>", endpoint="i"),
         Rule("/si/<int(signed=True):v>", endpoint="si"),
         Rule("/fd/<int(fixed_digits=3):v>", endpoint="fd"),
+        Rule("/sfd/<int(fixed_digits=4, signed=True):v>", endpoint="sfd"),
         Rule("/imm/<int(min=2, max=9):v>", endpoint="imm"),
         Rule("/f/<float:v>", endpoint="f"),
         Rule("/sf/<float(signed=True):v>", endpoint="sf"),
@@ -128,6 +133,16 @@ def rules_default():
     ]
 
 
+def rules_defrev():
+    return [
+        Rule("/list/<int:page>/<int:per>", endpoint="list"),
+        Rule("/list/", endpoint="list", defaults={"page": 1, "per": 10}),
+        Rule("/k/<v>/", endpoint="k"),
+        Rule("/k/", endpoint="k", defaults={"v": "en"}),
+        Submount("/sub", [Rule("/n/<int:v>", endpoint="n"), Rule("/n/", endpoint="n", defaults={"v": 1})]),
+    ]
+
+
 def rules_subvar():
     return [Rule("/u/<v>", subdomain="<user>", endpoint="su"), Rule("/", endpoint="root")]
 
@@ -138,8 +153,9 @@ def rules_host():
 
 
 CONFIGS = {
-    "default": (rules_default, {}, ["s", "s2", "s3", "smax", "sb", "aff", "lit", "two", "i", "si", "fd", "imm", "f", "sf",
+    "default": (rules_default, {}, ["s", "s2", "s3", "smax", "sb", "aff", "lit", "two", "i", "si", "fd", "sfd", "imm", "f", "sf",
                                     "any", "u", "p", "pb", "pe", "pp", "sm", "sd", "def", "defs"]),
+    "defrev": (rules_defrev, {}, ["list", "k", "n"]),
     "subvar": (rules_subvar, {}, ["su"]),
     "host": (rules_host, {"host_matching": True}, ["h", "hv"]),
 }
@@ -152,6 +168,8 @@ EXTRAS = [None, {"q": "a b"}, {"q": ["1", "é"], "r": "&="}]
 def make_values(ep, v):
     if ep == "two":
         return {"v": v, "w": 3}
+    if ep == "list":
+        return {"page": v[0], "per": v[1]}
     if ep == "pp":
         return {"v": "k", "w": v}
     if ep == "su":
@@ -161,9 +179,44 @@ def make_values(ep, v):
     return {"v": v}
 
 
+# request paths for the converse law "the URL built from the result of a successful match is the URL that was
+# matched", started from the *path* side (not from a built URL), so that it also covers paths build() would
+# never produce by itself
+CONVERSE_PATHS = {
+    "default": ["/s/a", "/s/é", "/s2/ab", "/sb/a/", "/aff/pas", "/two/a/x/3", "/i/7", "/si/-7", "/fd/007", "/sfd/-005",
+                "/sfd/0012", "/imm/5", "/f/1.5", "/sf/-1.5", "/any/a", "/u/" + str(U1), "/p/a/b", "/pb/a/b/",
+                "/pe/a/b/edit", "/pp/k/a/b", "/sub/m/a", "/def/", "/def/2", "/defs/", "/defs/é/"],
+    "defrev": ["/list/", "/list/2/10", "/list/1/5", "/k/", "/k/é/", "/sub/n/", "/sub/n/2"],
+}
+
+
+def converse_from_path(m, path, script, scheme):
+    ad = m.bind(SERVER, script_name=script, subdomain="", url_scheme=scheme)
+    try:
+        ep, values = ad.match(path)
+    except RequestRedirect:
+        return "skip-redirect", {}
+    except HTTPException as e:
+        return "path-does-not-match:" + type(e).__name__, {"path": path}
+    try:
+        url = ad.build(ep, dict(values))
+    except Exception as e:  # noqa: BLE001
+        return "rebuild-exception:" + type(e).__name__, {"path": path, "error": repr(e)}
+    d = deliver(url, scheme, script)
+    if len(d) == 2:
+        return "url-" + d[0], {"path": path, "url": url}
+    host, pi, _query = d
+    if host is not None or pi != path:
+        return "converse-from-path", {"path": path, "matched": (ep, dict(values)), "rebuilt": url}
+    return None, {"path": path, "url": url}
+
+
 def units(tier):
     vs = value_sets(tier)
     out = []
+    for cfg in CONVERSE_PATHS:
+        for script in SCRIPTS:
+            out.append(("@converse", cfg, script, None))
     size = 150 if tier == "quick" else 400
     for cfg, (_f, _kw, eps) in CONFIGS.items():
         for ep in eps:
@@ -281,6 +334,25 @@ def plain_url(ep, values, url):
 
 
 def run_unit(unit, R, tier):
+    if unit[0] == "@converse":
+        _tag, cfg, script, _none = unit
+        factory, kw, _eps = CONFIGS[cfg]
+        m = Map(factory(), **kw)
+        for path in CONVERSE_PATHS[cfg]:
+            for scheme in ("http", "https"):
+                problem, info = converse_from_path(m, path, script, scheme)
+                R.ev()
+                R.outcome(("converse", problem))
+                if problem == "skip-redirect":
+                    continue
+                R.use("converse-from-path")
+                if problem is not None:
+                    R.violation(f"converse:{problem.split(':')[0]}",
+                                {"kind": "converse", "cfg": cfg, "path": path, "script": script, "scheme": scheme,
+                                 "problem": problem, "info": {k: repr(x) for k, x in info.items()}})
+                else:
+                    R.nontrivial(("converse", cfg, path))
+        return
     cfg, ep, script, chunk = unit
     factory, kw, _eps = CONFIGS[cfg]
     m = Map(factory(), **kw)
@@ -330,7 +402,7 @@ def dec_value(v):
 
 def finalize(R, tier):
     need = ({"cfg:" + c for c in CONFIGS} | {"ep:" + e for _f, _k, eps in CONFIGS.values() for e in eps}
-            | {"script:" + s for s in SCRIPTS} | {"quoted", "crossed-host", "query", "external"})
+            | {"script:" + s for s in SCRIPTS} | {"quoted", "crossed-host", "query", "external", "converse-from-path"})
     missing = need - R.used
     if missing:
         raise core.Broken(f"vacuity: never exercised {sorted(missing)}")
@@ -341,6 +413,10 @@ def finalize(R, tier):
 
 
 def replay(rec):
+    if rec.get("kind") == "converse":
+        factory, kw, _eps = CONFIGS[rec["cfg"]]
+        problem, info = converse_from_path(Map(factory(), **kw), rec["path"], rec["script"], rec["scheme"])
+        return problem not in (None, "skip-redirect"), f"path={rec['path']!r} script={rec['script']!r} problem={problem} info={info}"
     if rec.get("kind") != "roundtrip":
         return True, rec.get("traceback", "unit exception")
     factory, kw, _eps = CONFIGS[rec["cfg"]]
